@@ -85,6 +85,13 @@ def directed_asym_configs():
         desc["qm"] = qm
         desc.pop("meta", None)
         out.append(CodecFeatures(G.from_description(desc), name="cf"))
+    # lossless with FEW LARGE slices and subsampled colour difference: a slice's luma alone needs more than 255 bytes at
+    # the largest quantisation index a generator may use, its colour-difference components much less
+    for (w, h, cdf, sx) in ((32, 16, 1, 1), (48, 16, 2, 1)):
+        desc = dict(base, profile=3, pcm=0, lossless=True, w=w, h=h, cdf=cdf, ss=0, luma_off=0, luma_exc=255, cd_exc=255, cd_off=128,
+                    wavelet=4, wavelet_ho=4, depth=1, depth_ho=0, sx=sx, sy=1, frag=0, picture_bytes=None, qm=None)
+        desc.pop("meta", None)
+        out.append(CodecFeatures(G.from_description(desc), name="cf"))
     return out
 
 
@@ -204,9 +211,10 @@ def violates(cf, thorough=False, limit=240):
                 cases = list(normalise_test_case_generator(gen, cf))
             except Timeout:
                 raise
-            except Exception as e:  # noqa  - recorded observation: a generator may be unable to serve a configuration
-                skipped.append("%s: %s" % (gname, type(e).__name__))
-                continue
+            except Exception as e:  # noqa
+                # a generator that fails outright for a valid configuration delivers none of its test cases (never seen on the
+                # unchanged tree: generators that cannot serve a configuration log a warning and yield nothing)
+                return "generator %s failed with %s: %s" % (gname, type(e).__name__, str(e)[:160]), ncases, skipped
             decoded = []
             for tc in cases:
                 ncases += 1
@@ -314,7 +322,7 @@ class Prop(object):
             try:
                 # the two slow generators (signal_range, real_pictures: large analyses, natural pictures) run for a
                 # handful of configurations of the thorough tier only
-                why, n, skipped = violates(cf, ctx.thorough and 18 <= ci < 24)
+                why, n, skipped = violates(cf, ctx.thorough and 20 <= ci < 26)
             except Exception as e:  # noqa
                 why, n, skipped = "exception %s: %s" % (type(e).__name__, str(e)[:200]), 0, []
             ctx.evaluations += n
